@@ -87,7 +87,14 @@ OnN(s, st, n) ==
     [] s.op = "Pairwise" -> IF st.flag THEN R([st1 EXCEPT !.acc = v], <<N(<<st.acc, v>>, c)>>)
                                        ELSE R([st1 EXCEPT !.acc = v, !.flag = TRUE], <<>>)
     [] s.op \in {"StartWith", "EndWith", "Serialize", "OnErrorReturn", "TapOnSubscribe", "TapOnFinalize",
-                 "TapOnError", "TapOnComplete", "ContextWithTimeout"} -> R(st1, <<n>>)
+                 "TapOnError", "TapOnComplete", "ContextWithTimeout", "ContextWithDeadline", "Cast", "TimeInterval", "Timestamp"} -> R(st1, <<n>>)
+    \* the rounding family works on floats: the harness feeds v / 2 (halves) and reads the result back as an integer (Abs: doubled)
+    [] s.op = "Ceil"     -> R(st1, <<N((v + 1) \div 2, c)>>)
+    [] s.op = "Floor"    -> R(st1, <<N(v \div 2, c)>>)
+    [] s.op = "Round"    -> R(st1, <<N(IF v >= 0 THEN (v + 1) \div 2 ELSE -((1 - v) \div 2), c)>>)      \* half away from zero
+    [] s.op = "Trunc"    -> R(st1, <<N(IF v >= 0 THEN v \div 2 ELSE -((-v) \div 2), c)>>)
+    [] s.op = "Abs"      -> R(st1, <<N(IF v >= 0 THEN v ELSE -v, c)>>)
+    [] s.op = "Average"  -> R([st1 EXCEPT !.acc = @ + v], <<>>)
     [] s.op \in {"Tap", "TapOnNext"} -> R(stc, <<n>>)
     [] s.op = "Filter"   -> IF FPred(s, v, i) THEN R(stc, <<N(v, CbCtx(s, c))>>) ELSE R(stc, <<>>)
     [] s.op = "Distinct" -> IF v \in st.seen THEN R(st1, <<>>) ELSE R([st1 EXCEPT !.seen = @ \cup {v}], <<n>>)
@@ -161,6 +168,8 @@ OnC(s, st, n) ==
     [] s.op = "ThrowIfEmpty"   -> IF st.flag THEN R(st, <<C(c)>>) ELSE R([st EXCEPT !.cb = @ + 1], <<E(ErrThrowIfEmpty, c)>>)
     [] s.op = "Count"     -> R(st, <<N(st.n, c), C(c)>>)
     [] s.op = "Sum"       -> R(st, <<N(st.acc, c), C(c)>>)
+    \* Average: twelve times the mean (an integer for 1..4 values), NaN (-999) on an empty source (pinned)
+    [] s.op = "Average"   -> IF st.n = 0 THEN R(st, <<N(-999, c), C(c)>>) ELSE R(st, <<N((12 * st.acc) \div st.n, c), C(c)>>)
     [] s.op = "Min"       -> IF st.flag THEN R(st, st.buf \o <<C(c)>>) ELSE R(st, <<C(c)>>)
     [] s.op = "Max"       -> IF st.flag THEN R(st, st.buf \o <<C(c)>>) ELSE R(st, <<N(0, c), C(c)>>)   \* value 0 pinned by the test suite; the context must not be nil (C09)
     [] s.op = "Reduce"    -> IF st.n = 0 THEN R(st, <<N(st.acc, c), C(c)>>) ELSE R(st, <<N(st.acc, st.buf[1].c), C(c)>>)
@@ -200,10 +209,11 @@ OpStep(s, st, n) ==
 (***************************************************************************)
 IntOnly == {"Map", "MapErr", "Scan", "Filter", "Distinct", "DistinctBy", "SkipWhile", "TakeWhile", "First", "Last", "Find",
             "Sum", "Min", "Max", "Clamp", "Reduce", "All", "Contains", "StartWith", "EndWith", "DefaultIfEmpty",
+            "Ceil", "Floor", "Round", "Trunc", "Abs", "Average",
             "ElementAtOrDefault", "OnErrorReturn", "ToMap", "Pairwise"}
 TIn(s) == CASE s.op \in IntOnly -> "int" [] s.op = "Flatten" -> "seq" [] s.op = "Dematerialize" -> "notif" [] OTHER -> "any"
 TOut(s, t) ==
-  CASE s.op \in {"Map", "MapTo", "MapErr", "Scan", "Sum", "Min", "Max", "Clamp", "Reduce", "Count"} -> "int"
+  CASE s.op \in {"Map", "MapTo", "MapErr", "Scan", "Sum", "Min", "Max", "Clamp", "Reduce", "Count", "Ceil", "Floor", "Round", "Trunc", "Abs", "Average"} -> "int"
     [] s.op \in {"BufferWithCount", "Pairwise", "ToSlice"} -> "seq"
     [] s.op = "ToMap" -> "map"
     [] s.op \in {"All", "Contains"} -> "bool"
